@@ -357,7 +357,7 @@ def run(tier, seed):
         "the blank-line clause is stated for a prefix x that lexes on its own and does not end in a line annotation (whose token "
         "includes its terminating line feed by design)",
     ]
-    sy = vplib.sync()
+    sy = vplib.sync_cone(["Properties/C13.vo"])
     for name, err in sy.get("errors", {}).items():
         if name in ("tokens", "tokentypes"):
             v.tie_failure("translator %s: %s" % (name, err))
